@@ -325,8 +325,7 @@ func (p *Program) modSetOf(fn *ssa.Function, ignoreOwn bool) *ModSet {
 					ms.Maps[mapKey(in.Map.Type())+"!d"] = true
 					ms.Maps[mapKey(in.Map.Type())+"!v"] = true
 				case *ssa.Go:
-					ms.All = true
-					p.noteAll(f, "go statement at "+p.Fset.Position(in.Pos()).String())
+					// concurrent interference is not modelled (listed assumption); not part of the sequential frame
 				case *ssa.Send, *ssa.Select:
 					// channel ops do not write modelled heap
 				case ssa.CallInstruction:
